@@ -101,9 +101,16 @@ func cpuTime() time.Duration {
 }
 
 func (w *W) Close() {
-	w.bw.Flush()
-	w.f.Close()
+	if err := w.bw.Flush(); err != nil {
+		ioError.Store("writing " + w.Path + ": " + err.Error())
+	}
+	if err := w.f.Close(); err != nil {
+		ioError.Store("closing " + w.Path + ": " + err.Error())
+	}
 }
+
+// ioError records a failed trace write (disk full ...): the run is then a TOOL failure, not a verdict.
+var ioError atomic.Value
 
 // Violation is a property violation found on the IMPLEMENTATION by a model-free oracle.
 type Violation struct {
@@ -132,6 +139,7 @@ type Stats struct {
 	Violations []Violation    `json:"violations"`
 	Known      []Violation    `json:"known_findings"`
 	HarnessErr string         `json:"harness_error,omitempty"`
+	IOErr      string         `json:"io_error,omitempty"` // a trace could not be written completely (disk full): tool failure
 	Exhaustive bool           `json:"exhaustive,omitempty"`
 }
 
@@ -145,6 +153,9 @@ func NewStats(stream string, seed int64) *Stats {
 func (s *Stats) Hit(tag string) { s.Dist[tag]++; progress() }
 
 func (s *Stats) Emit() {
+	if e, _ := ioError.Load().(string); e != "" {
+		s.IOErr = e
+	}
 	b, _ := json.Marshal(s)
 	fmt.Println("STATS " + string(b))
 }
